@@ -129,6 +129,40 @@ def build(spec):
     return d
 
 
+def apply_edits(d, edits):
+    """edit a built object through the public API, the way scripts do before writing: afterwards the
+    name -> object dictionaries are no longer in the order of their lists"""
+    import t2data as T
+    from copy import copy
+    g = d.grid
+    for e in edits:
+        op = e[0]
+        if op == 'sort_rocks': g.sort_rocktypes()
+        elif op == 'rename_rock': g.rename_rocktype(e[1], e[2])
+        elif op == 'readd_rock':
+            rt = g.rocktype[e[1]]
+            g.delete_rocktype(e[1]); g.add_rocktype(rt)
+        elif op == 'clean_rocks': g.clean_rocktypes()
+        elif op == 'reorder_blocks': g.reorder(block_names=list(e[1]))
+        elif op == 'rename_blocks': d.rename_blocks(dict(e[1]))
+        elif op == 'readd_block':
+            blk = g.block[e[1]]
+            g.delete_block(e[1]); g.add_block(blk)
+        elif op == 'demote_block': g.demote_block(list(e[1]) if len(e[1]) > 1 else e[1][0])
+        elif op == 'reorder_conns': g.reorder(connection_names=[tuple(x) for x in e[1]])
+        elif op == 'readd_gen':
+            gen = d.generator[tuple(e[1])]
+            d.delete_generator(tuple(e[1])); d.add_generator(gen)
+        elif op == 'dup_gen':
+            gen = copy(d.generator[tuple(e[1])])
+            gen.time, gen.rate, gen.enthalpy = list(gen.time), list(gen.rate), list(gen.enthalpy)
+            gen.gx = e[2]
+            d.add_generator(gen)
+        else:
+            raise ValueError('unknown edit %r' % (e,))
+    return d
+
+
 # ---------------------------------------------------------------------------------- dump
 
 def dump(d):
